@@ -156,7 +156,7 @@ def run(ctx, prog, res):
     # R5 -------------------------------------------------------------------------------------
     r5 = res.rule("C05.R5", "ordered choice does not shadow a supported sentence: for every rule, each sentence obtained by committing to one alternative per choice (bounded enumeration over the grammar with representative tokens) is accepted by the PEG reading of the same rule")
     import shadow
-    shadow.check(g, r5)
+    shadow.check(g, r5, thorough=(ctx.tier == "thorough"))
 
     # R6 -------------------------------------------------------------------------------------
     r6 = res.rule("C05.R6", "abbreviated date ranges (`Dec 25-05`) roll over correctly: wherever the result of a cyclic successor (`Month::next`) is compared with a constant to detect the wrap, the constant is the first element of the cycle (the month frame start, January)")
